@@ -17,10 +17,26 @@ PID = 'C16'
 U64 = sym.INT_TYPES['u64']
 U16 = sym.INT_TYPES['u16']
 
+def timer_transitions(m):
+    """Armed timers of the code under test (retry pauses) fire as environment steps; recorded for the replay script."""
+    out = []
+    for t in m.st.timers:
+        if t.polled and not t.fired and not t.dropped:
+            def fire(m, label=t.label):
+                for tt in m.st.timers:
+                    if tt.label == label:
+                        tt.fired = True
+                        m.event('timer_fired', label)
+                        dur = [e[3] for e in m.st.events if e[0] == 'timer_created' and e[1] == label]
+                        m.st.env.log.append(('timer', label, dur[-1] if dur else None))
+                        m.st.sched.wake(tt.waiters)
+            out.append(('fire ' + t.label, fire))
+    return out
+
 class PayHarness:
     max_polls = 80
     stop_on_first_violation = True
-    def __init__(self, c, xpay, pre_parts, max_new_parts, outcomes, codes=(204,), faults=0, amount_some=True):
+    def __init__(self, c, xpay, pre_parts, max_new_parts, outcomes, codes=(203, 204), faults=0, amount_some=True):
         self.c = c
         self.xpay = xpay
         self.pre_parts = pre_parts
@@ -57,7 +73,9 @@ class PayHarness:
         m.st.sched.new_task('pay', fut)
         m.st.roots.update({'checked': False, 'req_checked': False})
     def env_transitions(self, m):
-        return m.st.env.transitions(m)
+        out = m.st.env.transitions(m)
+        out.extend(timer_transitions(m))
+        return out
     def after_step(self, m, label):
         st = m.st
         env = st.env
@@ -114,7 +132,8 @@ class PayHarness:
         if t.status != 'done':
             raise Violation('pay-stuck', {'status': t.status, 'events': [list(map(str, e)) for e in m.events[-10:]]}, 'pay', 'stuck')
 
-def report(rep, name, ex, xpay):
+def report(rep, name, ex, xpay, pid=None):
+    pid = pid or PID
     for v, trail, m in ex.violations:
         env = m.st.env
         script = {'kind': 'pay', 'steps': script_from_log(env), 'final_parts': parts_summary(env), 'xpay': xpay}
@@ -126,11 +145,11 @@ def report(rep, name, ex, xpay):
             reproduced = request_mismatch(nat, script)
         else:
             reproduced = native_violates(nat, script)
-        cex = {'property': PID, 'harness': name, 'kind': v.kind, 'detail': v.detail, 'trail': trail.to_list(),
+        cex = {'property': pid, 'harness': name, 'kind': v.kind, 'detail': v.detail, 'trail': trail.to_list(),
                'script': script, 'native': nat, 'replay_kind': 'provider', 'role': v.role, 'cause': v.cause}
-        path = save_cex(PID, cex)
+        path = save_cex(pid, cex)
         if reproduced:
-            k = match_known(PID, v.role, v.cause)
+            k = match_known(pid, v.role, v.cause)
             if k:
                 msg = '%s/%s %s' % (v.role, v.cause, k.get('text', ''))
                 if msg not in rep.known:
@@ -147,8 +166,15 @@ def request_mismatch(nat, script):
         if ev.get('event') == 'call' and ev.get('method') == 'pay':
             p = ev.get('params', {})
             exp = {'maxfee': int(r.get('max_fee', 1000)), 'maxdelay': int(r.get('max_delta', 100)), 'retry_for': int(r.get('retry_for', 60))}
+            def norm(x):
+                if isinstance(x, str) and x.endswith('msat'):
+                    x = x[:-4]
+                try:
+                    return int(x)
+                except (TypeError, ValueError):
+                    return x
             for k, v in exp.items():
-                if p.get(k) != v:
+                if norm(p.get(k)) != v:
                     return True
             if p.get('bolt11') != 'lnbc1replay':
                 return True
@@ -158,7 +184,7 @@ def request_mismatch(nat, script):
 def main(tier, seed, args):
     rep = Report(PID, tier, seed, 'model_checking')
     c = ctx('on')
-    outcomes = ('complete', 'pending', 'failed', 'failed_warning', 'error:210')
+    outcomes = ('complete', 'pending', 'failed', 'failed_warning', 'failed_warning_empty', 'error:210', 'error:none')
     rep.bounds = {'pay_outcomes': list(outcomes), 'parts_created_by_pay': 1 if tier == 'quick' else 2,
                   'pre_existing_parts': 1, 'xpay': [False, True], 'faults': '0 (quick) / 1 RPC fault inside wait_payment (thorough)',
                   'outside': 'more parts; more than one RPC fault'}
@@ -185,12 +211,12 @@ def main(tier, seed, args):
         report(rep, name, ex, False)
     finish(rep, [c], './check C16 --tier ' + tier)
 
-def replay_cex(path):
+def replay_cex(path, pid=None):
     cex = json.load(open(path))
     nat = replay.run('provider', cex['script'], timeout=120)
     print(json.dumps(nat, indent=1))
     bad = request_mismatch(nat, cex['script']) if cex.get('kind') == 'pay-request-altered' else native_violates(nat, cex['script'])
     if bad:
-        print('VIOLATION property=%s replay=%s' % (PID, path))
+        print('VIOLATION property=%s replay=%s' % (pid or PID, path))
         return 1
     return 0
